@@ -184,8 +184,8 @@ def c13(chk):
                 "joint state. Non-trivial = every history with >= 1 call and every run.")
     chk.assumptions = ["shift = default (per-band rotation); integer shift 1 on a single band is checked to produce the same circuit",
                        "Gaussian simulator; homodyne comparisons at 1e-6/1e-5 (finite squeezing eps)"]
-    templates = ([("n2", 3), ("n3", 4), ("n3b", 3), ("b22", 3), ("b23", 4), ("b352", 2), ("n2x", 3)] if tier == "quick" else
-                 [("n2", 3), ("n2", 5), ("n3", 4), ("n3", 6), ("n3b", 3), ("n3b", 5), ("b22", 3), ("b22", 4), ("b23", 4), ("b23", 5), ("b352", 3), ("n2x", 3), ("n2x", 5)])
+    templates = ([("n2", 3), ("n3", 4), ("n3b", 3), ("b22", 3), ("b23", 4), ("b352", 2), ("n2x", 3), ("b12r", 4)] if tier == "quick" else
+                 [("n2", 3), ("n2", 5), ("n3", 4), ("n3", 6), ("n3b", 3), ("n3b", 5), ("b22", 3), ("b22", 4), ("b23", 4), ("b23", 5), ("b352", 3), ("n2x", 3), ("n2x", 5), ("b12r", 4), ("b12r", 5)])
     for tid, T in templates:
         r = chk.tlc("MC_TDM", constants={"TemplateId": tid, "T": T, "MaxShots": 1 if tid == "b352" else 2, "HistDepth": 3, "EMIT": True},
                     invariants=["RollRestores", "CacheCoherent", "MeansLoop", "EmitHist", "EmitStatic"])
